@@ -307,10 +307,17 @@ def gen_unclosed_comment(rng):
     return b"".join(toks[:k]) + b"/*" + gen_block_body(rng)
 
 
+def gen_lone_slash(rng):
+    """a '/' between tokens (or inside an unquoted one) followed by a byte other than '/' '*' NUL (lone_slash_rejected): must be invalid"""
+    toks = gen_tokens(rng)
+    k = rng.randrange(len(toks) + 1)
+    return b"".join(toks[:k]) + b"/" + bytes([rng.choice(b" x1\n\",]}=:\\\x80\xff\t")]) + b"".join(toks[k:])
+
+
 # texts around the closing rule of block comments (a '*' takes the next byte with it): closed / not closed
 STAR_COMMENTS = [b"[1]/**/", b"[1]/***/", b"[1]/****/", b"[1]/*****/", b"[1]/* **/", b"[1]/* * */", b"[1]/* ***/", b"/***/[1]", b"/****/[1]", b"[1/***/,2]/**/",
                  b"[1/***/ /**/,2]", b"[1/**/,2]", b"[1,/*/*/2]", b"[1,/*/2]", b"[1,/**//**/2]", b"[1,//**/\n2]", b"[1,/*//*/2]", b"[1/", b"[1/ /", b"[1]/", b"[1]//", b"[1]/*",
-                 b"[1]/**", b"[1]/* */ /", b"{a/*x*/b=1}", b"{ab/**/=1}", b"[12/*x*/3]", b"[1./**/5]", b"[tr/**/ue]", b"[\"a\"/**/]", b"[\"a/**/\"]", b"{\"a\"/**/:1}"]
+                 b"[1]/**", b"[1]/* */ /", b"[1/2]", b"{a/b=1}", b"[1]/x", b"{a/*x*/b=1}", b"{ab/**/=1}", b"[12/*x*/3]", b"[1./**/5]", b"[tr/**/ue]", b"[\"a\"/**/]", b"[\"a/**/\"]", b"{\"a\"/**/:1}"]
 
 
 def gen_xdl(rng, depth=0, maxdepth=4):
@@ -522,6 +529,10 @@ def gen(rng, tier):
         cases.append(ops_for(rng, w, allcuts, 6, xdl=True) + ["xdec " + hexs(wo), "dec " + hexs(w)])
     for i in range(60 * N):
         t = gen_unclosed_comment(rng)
+        xdocs.append(t)
+        cases.append(ops_for(rng, t, allcuts, 4, xdl=True))
+    for i in range(40 * N):
+        t = gen_lone_slash(rng)
         xdocs.append(t)
         cases.append(ops_for(rng, t, allcuts, 4, xdl=True))
     for t in STAR_COMMENTS:
@@ -831,6 +842,13 @@ def extra(ctx):
             fails.append(Failure("diverge", [l], [o], [], clause="a text ending inside a block comment was accepted (implementation alone): %s" % o[:80],
                                  name="unclosed_block_comment_rejected oracle"))
     ctx["stats"]["unclosed_comments_checked_on_impl_alone"] = len(uout)
+    slines = ["xdec " + hexs(gen_lone_slash(rng)) for _ in range(500)]
+    sout, scrash, serr = core.run_impl(ctx["exe"], slines, timeout=600)
+    for l, o in zip(slines, sout):
+        if o != "none" and len(fails) < 3:
+            fails.append(Failure("diverge", [l], [o], [], clause="a text with a lone '/' outside strings was accepted (implementation alone): %s" % o[:80],
+                                 name="lone_slash_rejected oracle"))
+    ctx["stats"]["lone_slashes_checked_on_impl_alone"] = len(sout)
     ctx["stats"]["comment_pairs_checked_on_impl_alone"] = min(len(pout), len(plines)) // 2
     ctx["stats"]["comment_pairs_valid"] = sum(1 for i in range(0, min(len(pout), len(plines)) - 1, 2) if pout[i] != "none")
     return fails
@@ -911,7 +929,8 @@ LEVEL_TEXT = ("Proved in Lean 4, for ALL byte strings / chunkings / documents, a
               "block comment /* b */ with b in the grammar XdlCmt.BlockBody - a byte other than '*', or '*' together with the byte after it unless that byte is '/' - "
               "met after any prefix that leaves the parser outside comments and outside the states STRING/QPROPERTY/ESCAPE, also in the middle of a number or "
               "name, decodes like the text without it; a line comment //...LF|CR decodes like its LF|CR alone; comments_transparent: any number of them, removed in any order (StripsTo); "
-              "unclosed_block_comment_rejected: a text ending inside such a comment, e.g. [1]/***/, is invalid; tied by K on texts of exactly that grammar and, on "
+              "unclosed_block_comment_rejected: a text ending inside such a comment, e.g. [1]/***/, is invalid; lone_slash_rejected: '/' followed by anything but '/' '*' "
+              "there makes the whole text invalid; tied by K on texts of exactly that grammar and, on "
               "the real library alone, by comparing the decode of 1500 commented texts with the decode of the uncommented ones on every run). parse_number_lexeme / scaled_literal_value / frac_exp_literal_decoded (fraction and exponent literals: the decimal read is the one the grammar "
               "denotes; exact double when it is an integer below 2^53 reached with a non-negative net exponent); myatoiz_from_source / myatoiz_no_overflow (the integer conversion of state INT is the function regenerated from "
               "src/String.cpp on every run, and cannot overflow an int on what INT hands to it). The model is tied to the code on every run by the "
